@@ -333,6 +333,17 @@ func short(s string) string {
 	return s
 }
 
+// safeImpl guards against arguments that the shrinker made meaningless for the harness itself
+// (e.g. a key index without a key): such candidates are never counted as disagreements.
+func safeImpl(op *Op, args map[string]any) (out any, invalid bool) {
+	defer func() {
+		if r := recover(); r != nil {
+			out, invalid = nil, true
+		}
+	}()
+	return op.Impl(args), false
+}
+
 func (r *Runner) disagrees(opn string, args map[string]any) (bool, any, any) {
 	op := r.Ops[opn]
 	refreshNow(args)
@@ -345,7 +356,10 @@ func (r *Runner) disagrees(opn string, args map[string]any) (bool, any, any) {
 		fmt.Fprintln(os.Stderr, "FATAL:", err)
 		os.Exit(2)
 	}
-	impl := op.Impl(args)
+	impl, invalid := safeImpl(op, args)
+	if invalid {
+		return false, nil, nil
+	}
 	model := r.modelOut(op, m)
 	return canon(impl) != canon(model), impl, model
 }
